@@ -241,6 +241,18 @@ theorem C13_pairing (sp : List Spendable) (i : Nat) (s : Spendable) (h : sp[i]? 
     (createTxPairing sp).1.length = sp.length := by
   simp [createTxPairing, h, Spendable.txIn]
 
+/-- C13.fee_history: after ANY history of reads and mutations on one transaction object, the next `fee()` is
+inputs minus outputs of the fields as they are at that moment (what a fresh object with those fields reports) -/
+theorem C13_fee_history (st : TxVals) (hist : List TxStep) :
+    txRun st (hist ++ [.fee]) =
+      txRun st hist ++ [some ((txAfter st hist).unspents.sum - (txAfter st hist).outs.sum)] := by
+  induction hist generalizing st with
+  | nil => simp [txRun, txStep, txAfter, fee]
+  | cons s ss ih =>
+    simp only [List.cons_append, txRun, txAfter, List.foldl_cons]
+    rw [ih]
+    rfl
+
 /-! ## conversions -/
 
 theorem numDigits_le {n k : Nat} (h : n < 10 ^ k) (hk : 0 < k) : numDigits n ≤ k := by
